@@ -23,7 +23,12 @@ def one(sid):
         env = dict(os.environ, VERIF_REPO=scratch, PYTHONDONTWRITEBYTECODE="1", VERIF_EVIDENCE_DIR=scratch + "/ev", VERIF_NO_REPLAY_VERIFY="1", VERIF_REPLAY_DIR=scratch + "/replays")
         r = subprocess.run([os.path.join(ROOT, "check"), checks[0], "--tier", "quick", "--no-shrink"], env=env, capture_output=True, text=True, timeout=900)
         first = next((l.strip() for l in r.stdout.splitlines() if l.strip().startswith("clause=")), "")
-        return "%s check=%s exit=%d %s" % (sid, checks[0], r.returncode, first[:110])
+        import re
+
+        idx = [int(m.group(1)) for m in re.finditer(r"^VIOLATION .*-(\d+)\.json", r.stdout, re.M)]
+        ev = re.search(r"^evaluations=(\d+)", r.stdout, re.M)
+        margin = "first_index=%s of %s" % (min(idx) if idx else "-", ev.group(1) if ev else "?")
+        return "%s check=%s exit=%d %s %s" % (sid, checks[0], r.returncode, margin, first[:100])
     finally:
         shutil.rmtree(scratch, ignore_errors=True)
 
